@@ -597,7 +597,7 @@ pub fn call_intresmixed<O: IntResMixed + ?Sized>(rv: &mut Recv<O>, mi: usize, a:
     }
 }
 
-pub const INTRESALIAS: [Meth; 2] = [m("ira_io"), m("ira_plain")];
+pub const INTRESALIAS: [Meth; 3] = [m("ira_io"), m("ira_plain"), m("ira_other")];
 
 pub fn call_intresalias<O: IntResAlias + ?Sized>(rv: &mut Recv<O>, mi: usize, a: &mut A) -> Ret {
     let o = rv.r();
@@ -609,6 +609,10 @@ pub fn call_intresalias<O: IntResAlias + ?Sized>(rv: &mut Recv<O>, mi: usize, a:
                 Err(e) => io_ret(code, false, e),
             }
         }
+        2 => match o.ira_other(a.i32(0)) {
+            Ok(v) => Ret::Ok_(Box::new(Ret::U(v))),
+            Err(e) => Ret::Err_(Box::new(Ret::Multi(vec![Ret::U(e.code as u32 as u64), Ret::U(e.detail as u32 as u64)]))),
+        },
         1 => match o.ira_plain(a.i32(0)) {
             Ok(v) => Ret::Ok_(Box::new(Ret::U(v))),
             Err(e) => Ret::Err_(Box::new(Ret::U(e as u64))),
@@ -652,7 +656,7 @@ pub fn call_genu64<O: Gen<u64> + ?Sized>(rv: &mut Recv<O>, mi: usize, a: &mut A)
     }
 }
 
-pub const ATTRS: [Meth; 5] = [m("at_first"), m("at_last"), m("at_c"), m("last"), Meth { name: "at_vonly", logged_as: "at_first" }];
+pub const ATTRS: [Meth; 6] = [m("at_first"), m("at_last"), m("at_c"), m("last"), Meth { name: "at_vonly", logged_as: "at_first" }, Meth { name: "at_generic", logged_as: "at_first" }];
 pub fn call_attrs<O: Attrs + ?Sized>(rv: &mut Recv<O>, mi: usize, a: &mut A) -> Ret {
     match mi {
         0 => Ret::U(rv.r().at_first(a.u(0))),
@@ -660,6 +664,7 @@ pub fn call_attrs<O: Attrs + ?Sized>(rv: &mut Recv<O>, mi: usize, a: &mut A) -> 
         2 => Ret::U(rv.r().at_c() as u64),
         3 => Ret::U(need_mut!(rv).last(a.u(0))),
         4 => Ret::U(rv.r().at_vonly(a.u(0))),
+        5 => Ret::U(rv.r().at_generic(a.u(0))),
         _ => Ret::NoSuchMethod,
     }
 }
